@@ -6,9 +6,29 @@ SPEC = {
     "clauses": {1: "no Stop accepted before a Start of that session",
                 2: "no Stop accepted for a session never started",
                 3: "absent a crash, an acknowledged Stop is not sent again",
-                4: "at a Final observation every ended started session has an acknowledged or durably queued Stop",
+                4: "at a Final observation every ended started session has an acknowledged or durably queued Stop (within the retry budget)",
                 5: "records carry the session's own id/user/MAC/IP",
                 6: "octet counters are reported exactly through the low-word/gigaword split"},
     "driver_timeout": 2400,
     "driver_args": ["-shard", "60"],
+    "rule": "a case = one history of <=3 sessions (Start/Stop/interim tick/queue step/retry tick/graceful stop/kill/restart/Final observation) with a per-op set of (session,status) requests the scripted UDP RADIUS server drops and a crash countdown (the k-th verifCrashPoint marker inside the op calls os.Exit(137) in the WORKER SUBPROCESS that hosts the real AccountingManager; restart = fresh worker on the same directory); streams: corpus (witnesses), enum (exhaustive: one session x every Start/Stop drop pattern x every crash point of every op x restart up/down; thorough adds interim on/off and two sessions in all 6 call orders x 16 drop patterns x every crash point), guarded (crash-free random histories: clause 4 holds by theorem), cases (random, up to 3 sessions); distinct = distinct case terms",
+    "assumptions": [
+        "os.WriteFile / os.Remove are atomic and durable in the Model (no torn writes, no fsync modelling)",
+        "real-time tickers (1 s retry, 10 s interim) are replaced by harness-driven single steps; every pending record and every session is always due (RetryBaseDelay = RetryMaxDelay = DefaultInterimInterval = 1 ns)",
+        "the server's ack/drop decision is keyed by (session, status type) within one op; Go map iteration order (interim scan, retry scan, pending.json reload) and drain goroutine order are taken from the observed run as oracle inputs of the op",
+        "crash inside the concurrent drain is injected only at the first completed exchange (all requests on the wire, one answered)",
+        "packet counters (no gigaword extension in RFC 2869) and Acct-Session-Time are not compared",
+        "a run in which the client missed a reply the scripted server did send (scheduler starvation, detected by op duration / queue growth) is repeated, the last time with 900 ms timeouts",
+        "after a crash has happened in a history the monitor no longer checks clause 3 for the rest of that history",
+    ],
+    "modelled": ["pkg/radius/accounting.go: StartSession, StopSession, sendAccountingStop, sendInterimUpdates/sendInterimUpdate, queuePendingRecord, processPendingRecord, retryPendingRecords, Stop/drainAllSessions/sendAccountingStopSync, persistActiveSession, removePersistedSession, persistPendingRecords, recoverOrphanedSessions",
+                 "pkg/radius/client.go: SendAccounting attribute encoding (status, session id, user, Calling-Station-Id, Framed-IP, octets + gigawords, terminate cause)",
+                 "not modelled: pkg/dhcp/server.go and pkg/pppoe/teardown.go call client.SendAccounting directly, once, and only log a failure (they bypass the AccountingManager altogether; see docs/C08.md)"],
+}
+
+MANIFEST = {
+    "text": "The accounting manager is modelled as a crash-aware persistence protocol (memory: sessions, pending map, channel; disk: sessions/*.json, pending.json; server-side record stream) whose every API call is a sequence of micro-steps with a crash point after each persistence/transmit step. Theorems over ALL histories x all outage patterns x all crash points: no Stop for a never-started session, every record carries the session's own id/user/MAC/IP, every accepted counter pair is one that was supplied and join(split v) = v for every v (split fits two 32-bit attributes for v < 2^64) - full; every ended session has an acknowledged or durably queued Stop - proved for crash-free histories under every outage pattern (retry budget inside the clause), refuted with four witnesses when crashes are allowed; Stop-after-Start and no-resend-after-ack refuted. Each refutation witness is replayed on the real AccountingManager (worker subprocess killed at the marker, restarted on the same directory, scripted UDP RADIUS server) and is a recorded known finding (K08a-K08f).",
+    "note": "Theorems are about the hand-written Model; the tie is the differential run (real manager + real client in a subprocess, real process death at verifCrashPoint markers, decoded Accounting-Requests + directory listing + queue snapshots compared after every op). No _partial theorems for clauses 1 and 3 yet. DHCP/PPPoE call sites that bypass the manager are outside the Model.",
+    "technique": "Rocq proof (invariants over micro-step monad with crash countdown; counting invariant relating pending map, retry counts and monitor counters) + differential correspondence with crash injection in a worker subprocess and a scripted RADIUS server",
+    "design_ref": "DESIGN.md §8 C08, §9 row 26",
 }
